@@ -145,7 +145,7 @@ def cases(tier, seed):
     for i in range(0, n, 8):
         out.append({"k": "forms", "i": i})
     for shape in [(), (2,), (2, 2), (1, 3)]:
-        for var in ("canon", "T", "zeroterm"):
+        for var in ("canon", "T", "zeroterm", "rev"):
             if var == "T" and len(shape) < 2:
                 continue
             out.append({"k": "arrays", "s": list(shape), "v": var})
